@@ -24,6 +24,7 @@
 #include <inttypes.h>
 
 using namespace sim;
+static std::string pid7() { char b[16]; snprintf(b, sizeof b, "%07d", (int)getpid()); return b; }
 extern "C" int w2c2_main(int argc, char** argv);
 
 // ------------------------------------------------------------------ plan
@@ -416,7 +417,7 @@ static std::string header_name(const std::string& base) {
 
 static void run_translator(const Plan& p, bool canonical, RunOut& o) {
     static int counter = 0;
-    char rootbuf[256]; snprintf(rootbuf, sizeof rootbuf, "%s/verif-e2-%d/r%d", g_scratch_base.c_str(), (int)getpid(), counter++ % 4);
+    char rootbuf[256]; snprintf(rootbuf, sizeof rootbuf, "%s/verif-e2-%07d/r%d", g_scratch_base.c_str(), (int)getpid(), counter++ % 4);
     std::string root = rootbuf; o.root = root;
     rm_rf(root);
     mkdirs(root + "/in"); mkdirs(root + "/work"); mkdirs(root + "/other"); mkdirs(root + "/abs");
@@ -700,7 +701,7 @@ int main(int argc, char** argv) {
     S = (Shared*)mmap(nullptr, sizeof(Shared), PROT_READ | PROT_WRITE, MAP_SHARED | MAP_ANONYMOUS, -1, 0);
     if (S == MAP_FAILED) { perror("mmap"); return 2; }
     setvbuf(stdout, nullptr, _IOLBF, 0);
-    std::string base = g_scratch_base + "/verif-e2-" + std::to_string((int)getpid());
+    std::string base = g_scratch_base + "/verif-e2-" + pid7();
     mkdirs(base);
     int rc = 0;
     if (!replay.empty()) {
